@@ -20,7 +20,7 @@ impl Property for Prop {
         "C16"
     }
     fn rule(&self) -> &'static str {
-        "histories: a receiver state (15 recipes (and, one history in 64, a 256-slot memory with an unfinished train on every fragment id) incl. unfinished trains on every slot, full / empty free list, remembered label, aliasing ids) is driven through a seeded prefix of 1..200 hostile packets (random bytes, structured headers, mutated valid packets, wrong CRC / length / frag id, unfinished trains); then: reset label memory; provision one buffer through the decapsulator or directly through its public memory field (Ok or 'free list full' both fine); probe 1 = valid complete packet with an explicit label (delivered buffer given back); probe 2 = valid fragmented PDU of 2..5 fragments on a seeded fragment id (half of them ids with an unfinished train or aliasing one; all 256 reachable) and label kind, built by the real encapsulator (or hand-made when the sender is unusable). A history is conclusive when the prefix did not panic (a panic is C05's finding); non-trivial = conclusive with a prefix of at least 1 packet that was not all padding; fingerprint = hash(state, prefix bytes, probe parameters)."
+        "histories: a receiver state (15 recipes (and, one history in 64, a 256-slot memory with an unfinished train on every fragment id) incl. unfinished trains on every slot, full / empty free list, remembered label, aliasing ids) is driven through a seeded prefix of 1..200 hostile buffers (random bytes, structured headers, mutated valid packets, wrong CRC / length / frag id, unfinished trains; one buffer in five continues with another hostile packet or random bytes after the packet), storage being provisioned at random points (one buffer, or until the memory reports that it is full); then: reset label memory; provision one buffer through the decapsulator or directly through its public memory field (Ok or 'free list full' both fine); probe 1 = valid complete packet with an explicit label (delivered buffer given back); probe 2 = valid fragmented PDU of 2..5 fragments on a seeded fragment id (half of them ids with an unfinished train or aliasing one; all 256 reachable) and label kind, built by the real encapsulator (or hand-made when the sender is unusable). A decap call of the prefix that panics is a violation (the sequence of calls cannot be completed: the caller is left without a decapsulator); non-trivial = conclusive with a prefix of at least 1 packet that was not all padding; fingerprint = hash(state, prefix bytes, probe parameters)."
     }
     fn gens(&self, cx: &Cx) -> Vec<Gen> {
         vec![Gen { name: "histories", count: cx.n(30_000, 2_000_000), exhaustive: false }]
@@ -58,11 +58,28 @@ impl Property for Prop {
         let mut h = 0u64;
         let mut conclusive = true;
         for _ in 0..n {
-            let p = hostile_packet(&mut rng, &pool, &st);
+            let mut p = hostile_packet(&mut rng, &pool, &st);
+            // one buffer in five holds more than the packet: another hostile packet or random bytes follow it
+            // (what a frame walker hands to decap)
+            match rng.below(10) {
+                0 => {
+                    let q = hostile_packet(&mut rng, &pool, &st);
+                    p.extend_from_slice(&q);
+                }
+                1 => {
+                    let k = 1 + rng.below(12);
+                    let t = rng.bytes(k);
+                    p.extend_from_slice(&t);
+                }
+                _ => {}
+            }
             h = mix(h, fnv(&p));
             rep.eval();
             match dec_guard(&mut d, &p) {
-                Err(_) => {
+                Err(msg) => {
+                    // "after ANY sequence of decap calls": a call that does not return ends the sequence and
+                    // leaves the caller without a usable decapsulator
+                    rep.violation("C16", format!("history-call-panicked:{}:{}", crate::mon::panic_class(&msg), st.name), || format!("state {}: decap panicked during the hostile history on {} ({} bytes): {}", st.name, hex_short(&p, 48), p.len(), msg), &replay);
                     conclusive = false;
                     break;
                 }
@@ -78,6 +95,15 @@ impl Property for Prop {
                     }
                 }
                 _ => {}
+            }
+            if rng.chance(1, 30) {
+                // the application tops the free list up until the memory reports that it is full
+                for _ in 0..600 {
+                    if d.provision_storage(vec![0u8; st.pdu_size].into_boxed_slice()).is_err() {
+                        break;
+                    }
+                }
+                rep.count("c16.free-list-filled-up");
             }
             if rng.chance(1, 12) {
                 if rng.chance(1, 2) {
@@ -193,7 +219,7 @@ impl Property for Prop {
         let c = rep.get("c16.conclusive");
         let i = rep.get("c16.inconclusive-prefix-panic");
         if c == 0 || (c * 100) < (c + i) * 95 {
-            rep.floors_missing.push(format!("C16 floor: only {} of {} histories conclusive (prefix panics are C05 findings)", c, c + i));
+            rep.floors_missing.push(format!("C16 floor: only {} of {} histories conclusive", c, c + i));
         }
     }
 }
